@@ -1053,6 +1053,11 @@ psBool_t tls13WeSupportGroup(ssl_t *ssl,
 {
     psSize_t i;
 
+    if (namedGroup == 0)
+    {
+        /* 0 marks the unused entries of the list. */
+        return PS_FALSE;
+    }
     for (i = 0; i < TLS_1_3_MAX_GROUPS; i++)
     {
         if (ssl->tls13SupportedGroups[i] == namedGroup)
